@@ -144,7 +144,13 @@ func runC11(r *Run) {
 	n := r.n(40, 800)
 	for i := 0; i < n; i++ {
 		sc := r.newSrvScen(srvOpts{noSecurity: true, peerStore: true, callback: i%3 == 0, defaultWant: i%2 == 1})
-		sc.announceHistory(50)
+		if i%8 == 3 {
+			// a popular infohash: more announcers than any fixed reply size someone might have in mind
+			sc.swarm = 60 + r.rng.Intn(60)
+			sc.announceHistory(sc.swarm + 30)
+		} else {
+			sc.announceHistory(50)
+		}
 		r.Result.TracesValidated++
 		if i < 2 {
 			r.sample(append([]string{}, sc.events[:min(len(sc.events), 8)]...))
@@ -321,15 +327,21 @@ func (sc *srvScen) announceHistory(n int) {
 	r := sc.r.rng
 	ihs := [][20]byte{sc.r.randID(), sc.r.randID(), sc.r.randID()}
 	var srcs []*net.UDPAddr
-	for i := 0; i < 6; i++ {
+	for i := 0; i < max(6, sc.swarm); i++ {
 		srcs = append(srcs, sc.freshSrc([]int{0, 0, 1, 2}[r.Intn(4)]))
+	}
+	if sc.swarm > 0 {
+		ihs = ihs[:1]
 	}
 	// both representations of one IPv4 address
 	srcs = append(srcs, udp(srcs[0].IP.To16(), srcs[0].Port))
 	for i := 0; i < n && !sc.dead; i++ {
 		ih := ihs[r.Intn(len(ihs))]
-		if r.Intn(2) == 0 {
+		if r.Intn(2) == 0 || i < sc.swarm {
 			src := srcs[r.Intn(len(srcs))]
+			if i < sc.swarm {
+				src = srcs[i]
+			}
 			if r.Intn(4) == 0 {
 				src = udp(src.IP, 1+r.Intn(65535)) // same IP, other UDP port
 			}
@@ -593,6 +605,19 @@ func (sc *srvScen) mixedFrom(bl *rangeList, n int) {
 			q = &qspec{y: "q", q: methods[r.Intn(len(methods))], t: sc.randT()}
 		case 1:
 			q = sc.mkQuery("nonsense", id, sc.r.randID())
+		case 2:
+			// a query whose arguments do not decode: still a datagram from that source, to that node. (Only where
+			// the property demands silence: a passive node, or a blocklisted source.)
+			if !sc.o.passive && !sc.isBlocked(src.IP) {
+				continue
+			}
+			badID := []*bval{bB(id[:3]), bB(id[:19]), bI(20), bL()}[r.Intn(4)]
+			m := bD("t", bB(sc.randT()), "y", bS("q"), "q", bS(methods[r.Intn(len(methods))]),
+				"a", bD("id", badID, "target", bB(id[:]), "info_hash", bB(id[:])))
+			sc.ev("query with an undecodable sender ID from %s", src)
+			sc.inject(src, m.enc(), "ud", nil, false, "ok", "nf")
+			sc.r.hist("inbound/undecodable-query")
+			continue
 		default:
 			q = sc.mkQuery(methods[r.Intn(len(methods))], id, sc.r.randID())
 			if (q.q == "announce_peer" || q.q == "put") && r.Intn(3) != 0 {
